@@ -83,7 +83,7 @@ class ParserNext(Contract):
         return RI_body(c.st, c.st.obj(m).fields["body"])
 
     def raises(self, c):
-        return RequestFactory.raises(RequestFactory(), c) + [(errs(c).ChunkMissingTerminator, None), (errs(c).InvalidChunkSize, None)]
+        return RequestFactory.raises(RequestFactory(), c) + [(errs(c).ChunkMissingTerminator, None), (errs(c).InvalidChunkSize, None), (errs(c).LimitRequestLine, None), (errs(c).LimitRequestHeaders, None)]
 
     def post(self, c):
         o1, o0 = c.st.obj(c.a["self"]), c.old.obj(c.a["self"])
